@@ -17,7 +17,8 @@ BER_KINDS = ['retag', 'len+1', 'len-1', 'len0', 'len-indef', 'len-huge',
              'len-long-form', 'wrap-constructed', 'retag-indef',
              'retag-indef']
 TEXT_KINDS = ['text-delete', 'text-dup', 'text-nest', 'text-swapcase',
-              'text-number']
+              'text-number', 'tree-dup', 'tree-dup', 'tree-drop',
+              'tree-swap', 'tree-move']
 
 
 # -- BER TLV walker (harness side, tolerant) ---------------------------------
@@ -369,11 +370,157 @@ def mutate_ber(data, kind, rng):
     return bytes(data)
 
 
+def text_spans(data):
+    """Spans (start, end) of the sub-trees of a JSON or XML document: XML
+    elements `<t>...</t>` / `<t/>`, JSON members `"k": value` and array
+    items.  Tolerant, harness-side, for valid encoder output."""
+
+    text = bytes(data)
+    spans = []
+
+    if text.lstrip()[:1] == b'<':
+        stack = []
+        index = 0
+
+        while index < len(text):
+            if text[index:index + 1] != b'<':
+                index += 1
+                continue
+
+            close = text.find(b'>', index)
+
+            if close < 0:
+                break
+
+            tag = text[index + 1:close]
+
+            if tag.startswith(b'/'):
+                if stack:
+                    spans.append((stack.pop(), close + 1))
+            elif tag.endswith(b'/'):
+                spans.append((index, close + 1))
+            elif not tag.startswith((b'?', b'!')):
+                stack.append(index)
+
+            index = close + 1
+
+        return [s for s in spans if s != (0, len(text))]
+
+    # JSON: members and array items at every nesting level.
+    def value_end(i):
+        while i < len(text) and text[i:i + 1] in b' \t\r\n':
+            i += 1
+
+        if i >= len(text):
+            return i
+
+        c = text[i:i + 1]
+
+        if c == b'"':
+            i += 1
+
+            while i < len(text) and text[i:i + 1] != b'"':
+                i += 2 if text[i:i + 1] == b'\\' else 1
+
+            return i + 1
+
+        if c in b'{[':
+            closer = b'}' if c == b'{' else b']'
+            i += 1
+
+            while i < len(text):
+                while i < len(text) and text[i:i + 1] in b' \t\r\n,':
+                    i += 1
+
+                if text[i:i + 1] == closer:
+                    return i + 1
+
+                start = i
+
+                if c == b'{':
+                    i = value_end(i)            # key
+
+                    while i < len(text) and text[i:i + 1] in b' \t\r\n:':
+                        i += 1
+
+                i = value_end(i)                # value / item
+                spans.append((start, i))
+
+                if i <= start:
+                    return len(text)
+
+            return i
+
+        while i < len(text) and text[i:i + 1] not in b',}] \t\r\n':
+            i += 1
+
+        return i
+
+    try:
+        value_end(0)
+    except RecursionError:
+        return []
+
+    return spans
+
+
+def mutate_tree(data, kind, rng):
+    """Structure-aware edits of a JSON / XML document: duplicate, drop,
+    swap or move a whole element / member."""
+
+    spans = text_spans(data)
+    text = bytes(data)
+
+    if not spans:
+        return text
+
+    is_xml = text.lstrip()[:1] == b'<'
+    separator = b'' if is_xml else b','
+    start, end = rng.choice(spans)
+    piece = text[start:end]
+
+    if kind == 'tree-dup':
+        copies = rng.choice([1, 1, 1, 2, 40])
+
+        return text[:end] + (separator + piece) * copies + text[end:]
+    elif kind == 'tree-drop':
+        return text[:start] + text[end:]
+    elif kind == 'tree-swap':
+        others = [s for s in spans
+                  if s[1] <= start or s[0] >= end]
+
+        if not others:
+            return text
+
+        a, b = sorted([(start, end), rng.choice(others)])
+
+        return (text[:a[0]] + text[b[0]:b[1]] + text[a[1]:b[0]]
+                + text[a[0]:a[1]] + text[b[1]:])
+    elif kind == 'tree-move':
+        others = [s for s in spans if s[1] <= start or s[0] >= end]
+
+        if not others:
+            return text
+
+        target = rng.choice(others)[1]
+        removed = text[:start] + text[end:]
+
+        if target > start:
+            target -= end - start
+
+        return removed[:target] + separator + piece + removed[target:]
+
+    return text
+
+
 def mutate_text(data, kind, rng):
     n = len(data)
 
     if n == 0:
         return bytes(data)
+
+    if kind.startswith('tree-'):
+        return mutate_tree(data, kind, rng)
 
     structural = [i for i, c in enumerate(data) if c in b'{}[]<>/":,']
 
